@@ -269,7 +269,7 @@ def dict_values(I, st, fv, args, kwargs, ctx):
     h = st.heap[r.oid]
     if h.ckeys is not None:
         return [(st, TupV([I.dict_load_c(st, r, k) for k in h.ckeys]))]
-    raise OutOfReach("dict.values() of symbolic dict")
+    return [(st, FuncV("builtin", name="$dictvalues", self=r))]
 
 
 def dict_update(I, st, fv, args, kwargs, ctx):
